@@ -34,3 +34,47 @@ CHECKS['C16'] = dict(
     text=('Every history of a 22-letter alphabet up to the depth bound, for hook registration before and after creation of the network instance: folding the notifications '
           '(ADD sets, DELETE removes, nil DELETE is a no-op) must reproduce RIBContents() in every network instance after every step, for Modify-style calls, held-operation resolution and Flush.'),
     note='Post-change hook only at this tier; the resolved-entry hook (goroutine) is exercised by the scheduler-based tier when built. Bounded depth.')
+ENGINES.append({'name': 'input-enumeration', 'path': 'harness/flushenum, harness/getenum, harness/malformed', 'serves_properties': ['C07', 'C08', 'C12'],
+     'kind_free_text': 'bounded-exhaustive enumeration of structured inputs (catalogue x request x decision-table cell; builder-call subsets; mutation closure) executed on fresh real servers against a reference decision table / model'})
+ENGINES[0]['serves_properties'] += ['C04', 'C05', 'C06', 'C07']
+CHECKS['C04'] = dict(
+    category='model_checking', design_ref='DESIGN.md §3 C04',
+    technique='explicit-state BFS over connect/announce/operate/disconnect steps of 2-3 sessions on the real server handlers, election reference model',
+    text=('Every history (to the depth bound) of open / close / announce(id) / operate(stamp, entry) steps of 2 (thorough: 3) sessions over a lattice of 128-bit ids with conflicting word orders, '
+          'executed on a real server.Server through the verif wrappers of newClient/checkParams/updateParams/runElection/doModify/deleteClient. An operation is authorised iff the model says the session is primary and '
+          'its stamp equals both its last announced id and the maximum announced; every other operation must be FAILED or end the RPC and must leave RIB, held set and election state byte-identical.'),
+    note='A step is one message handled to completion (interleavings inside a message are C05/C11). The Modify receive loop itself is not in this tier (C09). Bounded depth 5/6.')
+CHECKS['C05'] = dict(
+    category='model_checking', design_ref='DESIGN.md §3 C05',
+    technique='explicit-state BFS over announcement histories + exhaustive id-lattice sequences on the real runElection; (schedule exploration of concurrent runElection is the second tier)',
+    text=('Every announcement history of 2-3 sessions to the depth bound, and every sequence of 2 (thorough: 3) announcements over the word lattice {0,1,2,2^64-1}^2 by different sessions, on the real runElection: '
+          'each response must carry the maximum id announced so far compared as 128-bit integers, the server must hold it, and the primary must be the most recent announcer of an id >= all earlier ones.'),
+    note='Bounded depth; ids drawn from an order-complete lattice (the code only compares words).')
+CHECKS['C06'] = dict(
+    category='model_checking', design_ref='DESIGN.md §3 C06',
+    technique='explicit-state BFS over request batches on the real doModify of 2 sessions with held / dead / invalid operations and primary hand-over; per-stream result accounting',
+    text=('Every history to the depth bound of single operations and 2-3 operation batches (held entries, releasing entries, REPLACE that goes dead, DELETEs, empty and unknown network instance) sent by two sessions '
+          'that take the primary role from each other, in RIB-ack and FIB-ack mode, on the real doModify: per (stream, id) the results must be exactly {FAILED} or {RIB} or {RIB then FIB}; no id that the stream did not send; '
+          'every operation of the live primary is answered unless it is still held; the RIB equals the fold of RIB_PROGRAMMED results.'),
+    note='Handler tier (results collected from the channels doModify writes to); the goroutine plumbing of Modify is covered by the schedule tier when present. Bounded depth 5/6.')
+CHECKS['C07'] = dict(
+    category='model_checking', engine='input-enumeration', design_ref='DESIGN.md §3 C07',
+    technique='bounded-exhaustive input enumeration (all 8192 builder-call subsets, payload alphabets, catalogue x scope x table) on the real Get path + history BFS with a Get after every step',
+    text=('(a) every subset of the 13 fluent next-hop builder calls and a field alphabet covering every field of every AFT message is programmed into a real RIB and read back through the real Server.Get over the in-memory transport: '
+          'the returned payload must equal the programmed one field for field; (b) 14 catalogue RIBs x {DEFAULT, VRF, all} x {5 tables, ALL}: the stream must be exactly the installed entries in scope, ALL the disjoint union of the tables, '
+          'undefined scopes return nothing; FromGetResponses rebuilds the source; (c) history tier: every history to depth 3 (thorough 5) from three start states with the real GetRIB run after every step: the stream equals the fold of acknowledged operations.'),
+    note='Schema-rejected payload combinations create no expectation. Get runs with real goroutines (native mode) — its result is schedule-independent; abandonment is C10.')
+CHECKS['C08'] = dict(
+    category='model_checking', engine='input-enumeration', design_ref='DESIGN.md §3 C08',
+    technique='exhaustive enumeration of RIB catalogue x Flush target x election decision table on the real Server.Flush against the specification table',
+    text=('14 RIBs (shared / missing / circular / self backups, cross-instance references in both directions, held operations) x 6 targets x 8 (thorough 11) election fields x 3 (thorough 6) learnt ids on a fresh real server: '
+          'a malformed or unauthorised request gets one of the codes the specification assigns to the malformations that apply and changes nothing; an authorised one empties exactly the named instances, answers OK, '
+          'and leaves deletion protection equal to the referrers that remain (checked on counters and behaviourally by re-installing groups that remaining entries still point at).'),
+    note='Where specification and proto comments allow two answers (override with no id learnt; coinciding malformations) the oracle accepts the set.')
+CHECKS['C12'] = dict(
+    category='model_checking', engine='input-enumeration', design_ref='DESIGN.md §3 C12',
+    technique='bounded-exhaustive mutation closure (protoreflect walk x operator set; singles, thorough: pairs) of valid AFT operations / Get / Flush requests in 3 pre-states on the real handlers',
+    text=('Every single structured mutation (thorough: every pair) of one valid message per entry kind and operation type — clear/empty sub-message, other oneof arm, undefined/zero/last enum, boundary integers, malformed strings, '
+          'empty/duplicated lists — applied in three pre-states (empty, chain installed and referenced, held operations) through the real doModify, Get (under the controlled runtime so a goroutine panic is a verdict) and Flush: '
+          'no panic, the call returns, a rejected request leaves RIB / held set / counters identical, and the invalid classes the property lists are rejected.'),
+    note='Byte-level fuzzing of the wire format is a different family and not attempted; for a DELETE naming a syntactically invalid key that aliases nothing either verdict is accepted.')
